@@ -34,6 +34,7 @@ type Style struct {
 	Esc      bool   `json:"esc,omitempty"`      // \xHH spellings (the fork's byte escape) in quoted literals
 	NumSpell bool   `json:"numspell,omitempty"` // 1e3, 2.50, 5e-1
 	Alt      bool   `json:"alt,omitempty"`      // ':' in object items, trailing commas, newline item separators
+	ItemNL   bool   `json:"itemnl,omitempty"`   // one object-constructor item per line (wherever a raw newline may be written); user-function attributes in another order
 	Seed     uint64 `json:"seed,omitempty"`
 }
 
@@ -49,7 +50,7 @@ func (s Style) Modes() string {
 	if s.Heredoc > 0 {
 		m = append(m, "heredoc")
 	}
-	if s.Legacy || s.Esc || s.NumSpell || s.Alt {
+	if s.Legacy || s.Esc || s.NumSpell || s.Alt || s.ItemNL {
 		m = append(m, "alt")
 	}
 	if len(m) == 0 {
@@ -411,6 +412,12 @@ func (p *printer) bare(n *Node, heredocOK bool) {
 		p.pop()
 	case KTmpl:
 		p.template(n, heredocOK)
+	case KParen:
+		p.tok("(")
+		p.push(true)
+		p.expr(n.A, 0, false)
+		p.tok(")")
+		p.pop()
 	default:
 		panic("exprgen: unknown node kind " + n.K)
 	}
@@ -509,13 +516,20 @@ func (p *printer) chain(n *Node, attrOnly bool) {
 func (p *printer) obj(n *Node) {
 	p.tok("{")
 	p.push(false)
-	newlineSep := p.st.Alt && p.quoted == 0 && p.noNL == 0
-	if newlineSep && len(n.Items) > 0 && p.chance(1, 3) {
+	newlineSep := (p.st.Alt || p.st.ItemNL) && p.quoted == 0 && p.noNL == 0
+	itemNL := newlineSep && p.st.ItemNL
+	if newlineSep && len(n.Items) > 0 && (itemNL || p.chance(1, 3)) {
 		p.write("\n")
 	}
 	for i, it := range n.Items {
 		if i > 0 {
-			if newlineSep && p.chance(1, 2) {
+			if itemNL {
+				// the next item always starts on a new line
+				if p.chance(1, 4) {
+					p.tok(",")
+				}
+				p.write("\n")
+			} else if newlineSep && p.chance(1, 2) {
 				p.write("\n")
 			} else {
 				p.tok(",")
@@ -553,7 +567,9 @@ func (p *printer) obj(n *Node) {
 		}
 		p.expr(it.Val, 0, false)
 	}
-	if len(n.Items) > 0 && p.st.Alt && p.chance(1, 4) {
+	if len(n.Items) > 0 && itemNL {
+		p.write("\n")
+	} else if len(n.Items) > 0 && p.st.Alt && p.chance(1, 4) {
 		if newlineSep && p.chance(1, 2) {
 			p.write("\n")
 		} else {
@@ -996,11 +1012,18 @@ func PrintFuncs(fs []FuncDef, st Style) string {
 		}
 		s.Heredoc = 0
 		sb.WriteString("function \"" + f.Name + "\" {\n")
+		if st.ItemNL {
+			// the order of the attributes of a body is insignificant: the result first,
+			// followed by further attributes on the next lines
+			sb.WriteString("  result = " + PrintAttrExpr(f.Body, s) + "\n")
+		}
 		sb.WriteString("  params = [" + strings.Join(f.Params, ", ") + "]\n")
 		if f.VarParam != "" {
 			sb.WriteString("  variadic_param = " + f.VarParam + "\n")
 		}
-		sb.WriteString("  result = " + PrintAttrExpr(f.Body, s) + "\n")
+		if !st.ItemNL {
+			sb.WriteString("  result = " + PrintAttrExpr(f.Body, s) + "\n")
+		}
 		sb.WriteString("}\n")
 	}
 	return sb.String()
